@@ -341,6 +341,37 @@ def body(ck):
                 gm = any(not mask[off[i] + int(np.argmax(lu[off[i]:off[i + 1]]))] for i in range(len(dims)))
                 add(lit_multi(dims, [exp_oracle(x) for x in lu], mask, pu, ml, pm, a0.tolist(), draws), j, ("pol-multi", dims, tuple(mask.tolist()), p) if gm else None)
 
+    # --- "with a key it samples from the distribution whose log-probability it reports", jointly: a multi-discrete policy with
+    # uniform logits must produce every allowed joint action with the frequency exp(reported log-prob) = 1/#allowed joint actions
+    # (6-sigma binomial band per cell: a sound statistical criterion, false-alarm probability < 1e-7 per run)
+    for dims in ([(3, 3), (2, 3)] if md_ok else []):
+        policy = MLPActorCriticPolicy(env=mk_env(MultiDiscrete(dims)), key=jr.key(5), feature_size=8, feature_width=16, value_width=16, action_width=16)
+        policy = eqx.tree_at(lambda q: (q.action_head.action_dist.mapping.weight, q.action_head.action_dist.mapping.bias), policy,
+                             (policy.action_head.action_dist.mapping.weight * 0.0, policy.action_head.action_dist.mapping.bias * 0.0))
+        obs = jnp.asarray(rng.uniform(-1, 1, size=3))
+        n = 3600
+        for mparts in ([np.ones(d, dtype=bool) for d in dims], [np.array([False] + [True] * (d - 1)) for d in dims]):
+            mask = np.concatenate(mparts)
+            keys = jr.split(jr.key(int(rng.integers(2 ** 31))), n)
+            for api, fn in (("action_and_value", lambda k: (lambda r: (r[1], r[3]))(policy.action_and_value(None, obs, key=k, action_mask=jnp.asarray(mask)))),
+                            ("__call__", lambda k: (policy(None, obs, key=k, action_mask=jnp.asarray(mask))[1], jnp.asarray(0.0)))):
+                acts, lps = map(np.asarray, eqx.filter_jit(jax.vmap(fn))(keys))
+                off = np.concatenate([[0], np.cumsum(dims)])
+                allowed = [[c for c in range(dims[i]) if mask[off[i] + c]] for i in range(len(dims))]
+                cells = list(itertools.product(*allowed))
+                pcell = 1.0 / len(cells)
+                band = 6.0 * np.sqrt(pcell * (1 - pcell) / n)
+                freq = {c: float(np.mean(np.all(acts == np.asarray(c), axis=1))) for c in cells}
+                worst = max(cells, key=lambda c: abs(freq[c] - pcell))
+                ck.count("joint-law-probes"); ck.case_seen(("joint-law", dims, api, tuple(mask.tolist())))
+                if len(cells) > 1 and abs(freq[worst] - pcell) > band:
+                    ck.violations.append(Violation(
+                        "impl-violates-property", f"C16/MLPActorCriticPolicy/MultiDiscrete/joint-law/{api}",
+                        f"uniform multi-discrete policy: joint action {list(worst)} drawn with frequency {freq[worst]:.4f} over {n} keys, but its (reported) probability is {pcell:.4f} "
+                        f"(6-sigma band {band:.4f}): the policy does not sample from the distribution whose log-probability it reports",
+                        case={"component": "MLPActorCriticPolicy/MultiDiscrete", "dims": list(dims), "mask": mask.tolist(), "api": api, "n_keys": n,
+                              "joint_frequencies": {str(list(c)): freq[c] for c in cells}, "reported_log_prob_first": float(lps[0]), "expected_probability": pcell}))
+
     # --- MultiBinary
     @eqx.filter_jit
     def run_pol_bin(policy, obs, mask, keys):
